@@ -50,6 +50,14 @@ Theorem C14_csv_roundtrip_unguarded_refuted :
 Proof. exact csv_roundtrip_unguarded_refuted. Qed.
 Print Assumptions C14_csv_roundtrip_unguarded_refuted.
 
+(* the guard is exact: the round trip holds IF AND ONLY IF every field fits, and otherwise the
+   reader's answer is the field-limit error, whatever else the rows contain *)
+Theorem C14_csv_roundtrip_guard_exact : forall rows : list (list str),
+  (csv_rd (csv_wr rows) = Ok rows <-> Forall (Forall fits) rows) /\
+  (~ Forall (Forall fits) rows -> csv_rd (csv_wr rows) = Err EFieldLimit).
+Proof. exact (fun rows => conj (csv_roundtrip_iff rows) (csv_limit_exceeded rows)). Qed.
+Print Assumptions C14_csv_roundtrip_guard_exact.
+
 (* the file as sheets.load_csv reads it (text stream with newline=None): every cell comes back
    newline-normalised (CR LF and CR -> LF) and otherwise intact *)
 Theorem C14_csv_text_roundtrip : forall rows : list (list str),
